@@ -981,6 +981,45 @@ func (st pstate) resolve(v ssa.Value) ssa.Value {
 	return v
 }
 
+// resolveI is resolve that keeps MakeInterface (only ChangeType / ChangeInterface are looked through).
+func (st pstate) resolveI(v ssa.Value) ssa.Value {
+	strip := func(v ssa.Value) ssa.Value {
+		for {
+			switch x := v.(type) {
+			case *ssa.ChangeType:
+				v = x.X
+			case *ssa.ChangeInterface:
+				v = x.X
+			default:
+				return v
+			}
+		}
+	}
+	for i := 0; i < 8; i++ {
+		v = strip(v)
+		phi, ok := v.(*ssa.Phi)
+		if !ok {
+			return v
+		}
+		found := false
+		for _, ja := range st.joins {
+			if ja.j != nil && ja.j == phi.Block() && ja.k >= 0 && ja.k < len(phi.Edges) {
+				nv := phi.Edges[ja.k]
+				if p2, isPhi := strip(nv).(*ssa.Phi); isPhi && p2.Block() == ja.j {
+					return v
+				}
+				v = nv
+				found = true
+				break
+			}
+		}
+		if !found {
+			return v
+		}
+	}
+	return v
+}
+
 func (st pstate) fact(v ssa.Value) (truth, known bool) {
 	for _, f := range st.facts {
 		if f.v != nil && f.v == v {
@@ -1003,7 +1042,8 @@ func (st pstate) condBase(c ssa.Value) (base ssa.Value, neg, isNilTest bool) {
 		break
 	}
 	if bo, ok := c.(*ssa.BinOp); ok && (bo.Op == token.EQL || bo.Op == token.NEQ) {
-		x, y := st.resolve(bo.X), st.resolve(bo.Y)
+		// resolveI: `iface != nil` must not be read as a fact about what a MakeInterface wraps
+		x, y := st.resolveI(bo.X), st.resolveI(bo.Y)
 		if isNilConst(x) {
 			x, y = y, x
 		}
@@ -1116,6 +1156,135 @@ func provablyNonNil(v ssa.Value, depth int) bool {
 			}
 		}
 		return ok && n > 0
+	}
+	return false
+}
+
+// nilable: values of type t can be nil.
+func nilable(t types.Type) bool {
+	switch t.Underlying().(type) {
+	case *types.Pointer, *types.Map, *types.Chan, *types.Signature, *types.Slice, *types.Interface:
+		return true
+	}
+	return false
+}
+
+// deepNonNil: in state st, v is usable as a handle - neither a nil interface nor an interface that
+// wraps a nil pointer (a "typed nil": `var m *T; var h I = m` compares unequal to nil and still
+// crashes on first use). Results of a multi-result call are judged per return of the callee, leaving
+// out the returns that contradict what st knows about the call's other results (the usual
+// correlation "value is nil iff err != nil").
+func deepNonNil(st pstate, v ssa.Value, depth int) bool {
+	if depth < 0 {
+		return false
+	}
+	v = st.resolveI(v)
+	if isNilConst(v) {
+		return false
+	}
+	// a branch fact "v != nil" about an interface value built here (MakeInterface, or a phi of such)
+	// only says that the interface is non-nil, not what it wraps: look inside instead
+	_, isMI := v.(*ssa.MakeInterface)
+	_, isPhi := v.(*ssa.Phi)
+	if _, isIface := v.Type().Underlying().(*types.Interface); !(isIface && (isMI || isPhi)) {
+		if t, known := st.fact(v); known && t {
+			return true
+		}
+	}
+	switch x := v.(type) {
+	case *ssa.MakeInterface:
+		if !nilable(x.X.Type()) {
+			return true
+		}
+		return deepNonNil(st, x.X, depth)
+	case *ssa.Alloc, *ssa.MakeClosure, *ssa.Function, *ssa.MakeMap, *ssa.MakeChan, *ssa.Global, *ssa.FieldAddr, *ssa.IndexAddr:
+		return true
+	case *ssa.UnOp:
+		if g, isG := x.X.(*ssa.Global); isG && x.Op == token.MUL {
+			return globalNonNil(g)
+		}
+		return false
+	case *ssa.Phi:
+		for _, e := range x.Edges {
+			if e == ssa.Value(x) {
+				continue
+			}
+			if !deepNonNil(st, e, depth-1) {
+				return false
+			}
+		}
+		return true
+	case *ssa.Call:
+		f := x.Call.StaticCallee()
+		if f == nil || f.Blocks == nil || f.Signature.Results().Len() != 1 {
+			return false
+		}
+		n := 0
+		for _, b := range f.Blocks {
+			if r, isR := b.Instrs[len(b.Instrs)-1].(*ssa.Return); isR {
+				n++
+				for _, va := range resultValues(r, 0) {
+					if !deepNonNil(pstate{}, va.Val, depth-1) {
+						return false
+					}
+				}
+			}
+		}
+		return n > 0
+	case *ssa.Extract:
+		call, isCall := x.Tuple.(*ssa.Call)
+		if !isCall {
+			return false
+		}
+		f := call.Call.StaticCallee()
+		if f == nil || f.Blocks == nil {
+			return false
+		}
+		// what the caller knows about the other results of this call
+		type sib struct {
+			idx    int
+			nonNil bool
+		}
+		var sibs []sib
+		if call.Referrers() != nil {
+			for _, r := range *call.Referrers() {
+				if e, ok := r.(*ssa.Extract); ok && e.Index != x.Index {
+					if t, known := st.fact(e); known {
+						sibs = append(sibs, sib{e.Index, t})
+					}
+				}
+			}
+		}
+		n := 0
+		for _, b := range f.Blocks {
+			r, isR := b.Instrs[len(b.Instrs)-1].(*ssa.Return)
+			if !isR || x.Index >= len(r.Results) {
+				continue
+			}
+			for _, tuple := range resultTuples(r) {
+				infeasible := false
+				for _, sb := range sibs {
+					if sb.idx >= len(tuple) {
+						continue
+					}
+					sv := tuple[sb.idx].Val
+					if sb.nonNil && isNilConst(stripConv(sv)) {
+						infeasible = true
+					}
+					if !sb.nonNil && provablyNonNil(sv, 2) {
+						infeasible = true
+					}
+				}
+				if infeasible {
+					continue
+				}
+				n++
+				if !deepNonNil(pstate{}, tuple[x.Index].Val, depth-1) {
+					return false
+				}
+			}
+		}
+		return n > 0
 	}
 	return false
 }
